@@ -190,8 +190,16 @@ def _perm_direction(ctx):
     from ..common import inline_locals
 
     rng_src = src(inline_locals(f.node, comp.generators[0].iter))
-    ranged = p1 if p1 in rng_src and p2 not in rng_src else (p2 if p2 in rng_src and p1 not in rng_src else None)
-    ok_internal = ranged == key_space
+    # every matrix of both arguments has the same number of columns (validated on entry), so counting the
+    # columns of either argument, or of the validated list of counts, enumerates the same keys
+    ranged = p1 if p1 in rng_src and p2 not in rng_src else (p2 if p2 in rng_src and p1 not in rng_src else (f"{p1} / {p2}" if p1 in rng_src else None))
+    validated = False
+    for s in nodes:
+        if isinstance(s, ast.If) and s.body and isinstance(s.body[-1], ast.Raise):
+            t = src(inline_locals(f.node, s.test))
+            if "unique" in t and p1 in t and p2 in t and "shape" in t:
+                validated = True
+    ok_internal = ranged is not None if validated else ranged == key_space
     return f, (p1, p2), key_space, val_space, ok_internal, ranged
 
 
